@@ -67,7 +67,7 @@ def check_iter(ctx, sc, roots, meta, kinds_states):
         rs = sc.get(r.name)
         if rs is None or not rs.ok: continue
         try: res[r.name] = rs.only()
-        except AssertionError as e:
+        except (AssertionError, KeyError, ValueError, TypeError, IndexError, ZeroDivisionError, AttributeError) as e:
             ctx.ob('c18/iter/%s/one-path' % r.name[2:], False, 'the iterator methods are branch-free on a concrete cursor state', r.name, 1, str(e))
     for K, states in kinds_states.items():
         N = vdim(K); T = toks('a0', K)
@@ -140,10 +140,18 @@ def conv_roots(kinds):
         add('r_fromiter_' + K, 'pub fn r_fromiter_%s(v: %s) -> %s { v.into_iter().collect() }' % (K, V, V), kind='ident', K=K)
         add('r_fromiter_rev_' + K, 'pub fn r_fromiter_rev_%s(v: %s) -> %s { v.into_iter().rev().collect() }' % (K, V, V), kind='rev', K=K)
         add('r_zip_' + K, 'pub fn r_zip_%s(v: %s, w: %s) -> %s<(Tok, Tok)> { v.zip(w) }' % (K, V, V, K), kind='zip', K=K)
+        # a source longer than the vector: exactly N elements are taken, the others stay in the source (by_ref), none is dropped on the way
+        if N <= 16:
+            add('r_fromiter_long_' + K, 'pub fn r_fromiter_long_%s(m: [Tok; %d]) -> (%s, Option<Tok>, Option<Tok>) { let mut it = m.into_iter(); let v: %s = it.by_ref().collect(); (v, it.next(), it.next()) }' % (K, N + 2, V, V), kind='fromlong', K=K)
+        small = {'Vec3': 'Vec2', 'Vec4': 'Vec3', 'Extent3': 'Extent2', 'Rgba': 'Rgb', 'Uvw': 'Uv'}.get(K)
+        if small in kinds:
+            add('r_fromss_' + K, 'pub fn r_fromss_%s(a: (%s<Tok>, Tok)) -> %s { %s::from(a) }' % (K, small, V, K), kind='fromss', K=K, small=small)
         # views
         for nm, expr, mut in (('as_slice', 'v.as_slice()', ''), ('as_mut_slice', 'v.as_mut_slice()', 'mut '), ('deref', 'core::ops::Deref::deref(v)', ''), ('deref_mut', 'core::ops::DerefMut::deref_mut(v)', 'mut '),
                               ('as_ref', 'AsRef::<[Tok]>::as_ref(v)', ''), ('as_mut', 'AsMut::<[Tok]>::as_mut(v)', 'mut '), ('borrow', 'core::borrow::Borrow::<[Tok]>::borrow(v)', ''), ('borrow_mut', 'core::borrow::BorrowMut::<[Tok]>::borrow_mut(v)', 'mut ')):
             add('r_view_%s_%s' % (nm, K), 'pub fn r_view_%s_%s(v: &%s%s) -> &%s[Tok] { %s }' % (nm, K, mut, V, mut, expr), kind='view', K=K)
+        add('r_selfref_' + K, 'pub fn r_selfref_%s(v: &%s) -> &%s { AsRef::<%s>::as_ref(v) }' % (K, V, V, V), kind='selfview', K=K)
+        add('r_selfmut_' + K, 'pub fn r_selfmut_%s(v: &mut %s) -> &mut %s { AsMut::<%s>::as_mut(v) }' % (K, V, V, V), kind='selfview', K=K)
         add('r_refiter_' + K, 'pub fn r_refiter_%s(v: &%s) -> [Option<&Tok>; %d] { let mut it = v.into_iter(); [%s] }' % (K, V, N + 1, ', '.join(['it.next()'] * (N + 1))), kind='refiter', K=K)
         add('r_refiter_mut_' + K, 'pub fn r_refiter_mut_%s(v: &mut %s) -> [Option<&mut Tok>; %d] { let mut it = v.into_iter(); [%s] }' % (K, V, N + 1, ', '.join(['it.next()'] * (N + 1))), kind='refiter', K=K)
     for L, n in MATS:
@@ -162,9 +170,9 @@ def conv_roots(kinds):
     return roots, meta
 
 
-def own_ok(ctx, key, p, w, expect_out, inputs):
+def own_ok(ctx, key, p, w, expect_out, inputs, out=None):
     """conservation: every input token ends in exactly one output slot or is dropped exactly once; nothing is read after being moved"""
-    out = [str(x) for x in leaves(p.ret)]
+    out = [str(x) for x in (leaves(p.ret) if out is None else out)]
     dropped = [str(p.term(e[1])) for e in p.ev('drop')]
     bad = [e[1] for e in p.ev('badread')]
     ctx.ob(key + '/order', out == expect_out, 'perm: each element lands in its documented position', w, expect_out, out)
@@ -180,7 +188,7 @@ def check_conv(ctx, sc, roots, meta):
         if rs is None or not rs.ok: continue
         key = 'c18/conv/' + r.name[2:]; w = r.code; k = m['kind']
         try: p = rs.only()
-        except AssertionError as e:
+        except (AssertionError, KeyError, ValueError, TypeError, IndexError, ZeroDivisionError, AttributeError) as e:
             ctx.ob(key + '/one-path', False, 'conversions are branch-free', w, 1, str(e)); continue
         if 'K' in m:
             K = m['K']; N = vdim(K); T = toks('a0', K)
@@ -190,6 +198,14 @@ def check_conv(ctx, sc, roots, meta):
             a = ['a0[%d]' % i for i in range(N)]; own_ok(ctx, key, p, w, a, a)
         elif k == 'fromtup':
             a = ['a0.%d' % i for i in range(N)]; own_ok(ctx, key, p, w, a, a)
+        elif k == 'fromlong':
+            a = ['a0[%d]' % i for i in range(N + 2)]
+            flat = list(leaves(p.ret[0]))
+            for o in p.ret[1:]:
+                flat += list(o.fields) if isinstance(o, Enum) and o.var == 1 else ['None']
+            own_ok(ctx, key, p, w, a, a, out=flat)
+        elif k == 'fromss':
+            a = ['a0.0.%s' % f for f in VEC_FIELDS[m['small']][0]] + ['a0.1']; own_ok(ctx, key, p, w, a, a)
         elif k == 'zip':
             U = toks('a1', K); e = []
             for i in range(N): e += [T[i], U[i]]
@@ -203,6 +219,10 @@ def check_conv(ctx, sc, roots, meta):
             rsl = p.ev('rawslice')
             okr = bool(rsl) and all(e[3] == N and e[4] == 1 and e[5] == N for e in rsl)
             ctx.ob(key + '/exact-extent', okr, 'view: the raw slice covers exactly the value (stride 1 element, length = element count = storage size)', w, 'avail=%d stride=1 len=%d' % (N, N), rsl)
+        elif k == 'selfview':
+            ret = p.ret
+            okp = isinstance(ret, Ptr) and ret.d.get('alloc') == 'arg:a0' and ret.d.get('path') in ('[]',) and int(ret.d.get('off', -1)) == 0 and not ret.d.get('sl')
+            ctx.ob(key + '/is-self', okp, 'view: AsRef/AsMut to the vector type itself returns the value itself', w, 'ptr to arg:a0', repr(ret)[:200])
         elif k == 'refiter':
             xs = p.ret; got = []
             for x in xs:
